@@ -749,6 +749,11 @@ def make_sftp_server(root: str, pool: List[Dict[str, Any]]):
                 raise asyncssh.SFTPError(int(path[4:].split(b'/')[0]),
                                          'injected', 'en')
 
+            if path.startswith(b'/@u/'):
+                # an error class carrying extra fields
+                raise asyncssh.SFTPUnknownPrincipal(
+                    'injected', 'en', unknown_names=['alice', 'bob'])
+
             if path.startswith(b'/@n/'):
                 # what the stock SFTPServer raises where the platform
                 # lacks an operation (documented -> FX_OP_UNSUPPORTED)
@@ -857,7 +862,7 @@ def build_request(sess: _Session, req: Dict[str, Any]) -> Dict[str, Any]:
         return None
 
     if op in PATH_OPS:
-        if path.startswith(('/@e/', '/@s/', '/@n/')):
+        if path.startswith(('/@e/', '/@s/', '/@n/', '/@u/')):
             if op in INJECTABLE:
                 inject = path
             else:
@@ -871,6 +876,9 @@ def build_request(sess: _Session, req: Dict[str, Any]) -> Dict[str, Any]:
         if inject.startswith('/@e/'):
             expect = errno_status(v, inject[4:])
             info['inject'] = 'errno'
+        elif inject.startswith('/@u/'):
+            expect = status_for(v, W.FX_UNKNOWN_PRINCIPAL)
+            info['inject'] = 'sftp-extra-fields'
         elif inject.startswith('/@n/'):
             expect = {W.FX_OP_UNSUPPORTED}
             info['inject'] = 'notimpl'
@@ -2345,7 +2353,7 @@ def enum_errors(tier: str):
 
     attrs = {'permissions': 0o644}
     paths = ['/@e/' + e for e in ERRNOS] + \
-        ['/@s/%d' % c for c in range(2, 32)] + ['/@n/x']
+        ['/@s/%d' % c for c in range(2, 32)] + ['/@n/x', '/@u/x']
 
     for v in (3, 4, 5, 6):
         for op in sorted(INJECTABLE):
@@ -2385,7 +2393,8 @@ FAMILIES = [
                      ['op:' + op for op in OPS]}),
     Family('errors', run_server, enumerate=enum_errors,
            required={'all': ['v3', 'v4', 'v5', 'v6', 'inject:errno',
-                             'inject:sftp', 'inject:notimpl'] +
+                             'inject:sftp', 'inject:notimpl',
+                             'inject:sftp-extra-fields'] +
                      ['op:' + op for op in sorted(INJECTABLE)]}),
     Family('client', run_client, strategy=client_strategy,
            budget={'quick': 1280, 'thorough': 20000},
